@@ -101,6 +101,25 @@ def _history(opb, ops):
                 F.add_clauses_from(F2.clauses())
             if F.number_of_variables() != n0 + a + 1:
                 return False
+        elif kind == 14:
+            # interleaving INSIDE one bulk insertion: the clauses come from a lazy encoder that creates auxiliary variables
+            # and groups on the same formula while it is being consumed
+            got = []
+
+            def lazy():
+                yield [n0 + a + 1, -(n0 + 1)]
+                got.append(F.new_variable())
+                yield [-got[0]] if b == 0 else [n0 + 1]
+                blk = F.new_block(1, 2)
+                got.extend(sorted(blk.to_dict().values()))
+                if b == 2:
+                    yield [got[1]]
+            if opb and b == 1:
+                F.add_constraints_from(([(1, l) for l in c] + ['>=', 1]) for c in lazy())
+            else:
+                F.add_clauses_from(lazy())
+            if got != [n0 + a + 2, n0 + a + 3, n0 + a + 4] or F.number_of_variables() != n0 + a + 4:
+                return False
         elif kind == 9:
             G = GR.Graph(a + 1)
             for u in range(1, a + 1):
@@ -137,90 +156,90 @@ def _history(opb, ops):
 
 def h_e_hist2_0(opb: bool, a1: int, b1: int, k2: int, a2: int, b2: int) -> bool:
     """
-    pre: 0 <= a1 <= 2 and 0 <= b1 <= 2 and 0 <= k2 <= 13 and 0 <= a2 <= 2 and 0 <= b2 <= 2
+    pre: 0 <= a1 <= 2 and 0 <= b1 <= 2 and 0 <= k2 <= 14 and 0 <= a2 <= 2 and 0 <= b2 <= 2
     post: _
     """
-    return untraced(_history, pickb(opb), [(0, pick(a1, 0, 2), pick(b1, 0, 2)), (pick(k2, 0, 13), pick(a2, 0, 2), pick(b2, 0, 2))])
+    return untraced(_history, pickb(opb), [(0, pick(a1, 0, 2), pick(b1, 0, 2)), (pick(k2, 0, 14), pick(a2, 0, 2), pick(b2, 0, 2))])
 
 
 def h_e_hist2_1(opb: bool, a1: int, b1: int, k2: int, a2: int, b2: int) -> bool:
     """
-    pre: 0 <= a1 <= 2 and 0 <= b1 <= 2 and 0 <= k2 <= 13 and 0 <= a2 <= 2 and 0 <= b2 <= 2
+    pre: 0 <= a1 <= 2 and 0 <= b1 <= 2 and 0 <= k2 <= 14 and 0 <= a2 <= 2 and 0 <= b2 <= 2
     post: _
     """
-    return untraced(_history, pickb(opb), [(1, pick(a1, 0, 2), pick(b1, 0, 2)), (pick(k2, 0, 13), pick(a2, 0, 2), pick(b2, 0, 2))])
+    return untraced(_history, pickb(opb), [(1, pick(a1, 0, 2), pick(b1, 0, 2)), (pick(k2, 0, 14), pick(a2, 0, 2), pick(b2, 0, 2))])
 
 
 def h_e_hist2_2(opb: bool, a1: int, b1: int, k2: int, a2: int, b2: int) -> bool:
     """
-    pre: 0 <= a1 <= 2 and 0 <= b1 <= 2 and 0 <= k2 <= 13 and 0 <= a2 <= 2 and 0 <= b2 <= 2
+    pre: 0 <= a1 <= 2 and 0 <= b1 <= 2 and 0 <= k2 <= 14 and 0 <= a2 <= 2 and 0 <= b2 <= 2
     post: _
     """
-    return untraced(_history, pickb(opb), [(2, pick(a1, 0, 2), pick(b1, 0, 2)), (pick(k2, 0, 13), pick(a2, 0, 2), pick(b2, 0, 2))])
+    return untraced(_history, pickb(opb), [(2, pick(a1, 0, 2), pick(b1, 0, 2)), (pick(k2, 0, 14), pick(a2, 0, 2), pick(b2, 0, 2))])
 
 
 def h_e_hist2_3(opb: bool, a1: int, b1: int, k2: int, a2: int, b2: int) -> bool:
     """
-    pre: 0 <= a1 <= 2 and 0 <= b1 <= 2 and 0 <= k2 <= 13 and 0 <= a2 <= 2 and 0 <= b2 <= 2
+    pre: 0 <= a1 <= 2 and 0 <= b1 <= 2 and 0 <= k2 <= 14 and 0 <= a2 <= 2 and 0 <= b2 <= 2
     post: _
     """
-    return untraced(_history, pickb(opb), [(3, pick(a1, 0, 2), pick(b1, 0, 2)), (pick(k2, 0, 13), pick(a2, 0, 2), pick(b2, 0, 2))])
+    return untraced(_history, pickb(opb), [(3, pick(a1, 0, 2), pick(b1, 0, 2)), (pick(k2, 0, 14), pick(a2, 0, 2), pick(b2, 0, 2))])
 
 
 def h_e_hist2_4(opb: bool, a1: int, b1: int, k2: int, a2: int, b2: int) -> bool:
     """
-    pre: 0 <= a1 <= 2 and 0 <= b1 <= 2 and 0 <= k2 <= 13 and 0 <= a2 <= 2 and 0 <= b2 <= 2
+    pre: 0 <= a1 <= 2 and 0 <= b1 <= 2 and 0 <= k2 <= 14 and 0 <= a2 <= 2 and 0 <= b2 <= 2
     post: _
     """
-    return untraced(_history, pickb(opb), [(4, pick(a1, 0, 2), pick(b1, 0, 2)), (pick(k2, 0, 13), pick(a2, 0, 2), pick(b2, 0, 2))])
+    return untraced(_history, pickb(opb), [(4, pick(a1, 0, 2), pick(b1, 0, 2)), (pick(k2, 0, 14), pick(a2, 0, 2), pick(b2, 0, 2))])
 
 
 def h_e_hist2_5(opb: bool, a1: int, b1: int, k2: int, a2: int, b2: int) -> bool:
     """
-    pre: 0 <= a1 <= 2 and 0 <= b1 <= 2 and 0 <= k2 <= 13 and 0 <= a2 <= 2 and 0 <= b2 <= 2
+    pre: 0 <= a1 <= 2 and 0 <= b1 <= 2 and 0 <= k2 <= 14 and 0 <= a2 <= 2 and 0 <= b2 <= 2
     post: _
     """
-    return untraced(_history, pickb(opb), [(5, pick(a1, 0, 2), pick(b1, 0, 2)), (pick(k2, 0, 13), pick(a2, 0, 2), pick(b2, 0, 2))])
+    return untraced(_history, pickb(opb), [(5, pick(a1, 0, 2), pick(b1, 0, 2)), (pick(k2, 0, 14), pick(a2, 0, 2), pick(b2, 0, 2))])
 
 
 def h_e_hist2_6(opb: bool, a1: int, b1: int, k2: int, a2: int, b2: int) -> bool:
     """
-    pre: 0 <= a1 <= 2 and 0 <= b1 <= 2 and 0 <= k2 <= 13 and 0 <= a2 <= 2 and 0 <= b2 <= 2
+    pre: 0 <= a1 <= 2 and 0 <= b1 <= 2 and 0 <= k2 <= 14 and 0 <= a2 <= 2 and 0 <= b2 <= 2
     post: _
     """
-    return untraced(_history, pickb(opb), [(6, pick(a1, 0, 2), pick(b1, 0, 2)), (pick(k2, 0, 13), pick(a2, 0, 2), pick(b2, 0, 2))])
+    return untraced(_history, pickb(opb), [(6, pick(a1, 0, 2), pick(b1, 0, 2)), (pick(k2, 0, 14), pick(a2, 0, 2), pick(b2, 0, 2))])
 
 
 def h_e_hist2_7(opb: bool, a1: int, b1: int, k2: int, a2: int, b2: int) -> bool:
     """
-    pre: 0 <= a1 <= 2 and 0 <= b1 <= 2 and 0 <= k2 <= 13 and 0 <= a2 <= 2 and 0 <= b2 <= 2
+    pre: 0 <= a1 <= 2 and 0 <= b1 <= 2 and 0 <= k2 <= 14 and 0 <= a2 <= 2 and 0 <= b2 <= 2
     post: _
     """
-    return untraced(_history, pickb(opb), [(7, pick(a1, 0, 2), pick(b1, 0, 2)), (pick(k2, 0, 13), pick(a2, 0, 2), pick(b2, 0, 2))])
+    return untraced(_history, pickb(opb), [(7, pick(a1, 0, 2), pick(b1, 0, 2)), (pick(k2, 0, 14), pick(a2, 0, 2), pick(b2, 0, 2))])
 
 
 def h_e_hist2_8(opb: bool, a1: int, b1: int, k2: int, a2: int, b2: int) -> bool:
     """
-    pre: 0 <= a1 <= 2 and 0 <= b1 <= 2 and 0 <= k2 <= 13 and 0 <= a2 <= 2 and 0 <= b2 <= 2
+    pre: 0 <= a1 <= 2 and 0 <= b1 <= 2 and 0 <= k2 <= 14 and 0 <= a2 <= 2 and 0 <= b2 <= 2
     post: _
     """
-    return untraced(_history, pickb(opb), [(8, pick(a1, 0, 2), pick(b1, 0, 2)), (pick(k2, 0, 13), pick(a2, 0, 2), pick(b2, 0, 2))])
+    return untraced(_history, pickb(opb), [(8, pick(a1, 0, 2), pick(b1, 0, 2)), (pick(k2, 0, 14), pick(a2, 0, 2), pick(b2, 0, 2))])
 
 
 def h_e_hist2_9(opb: bool, a1: int, b1: int, k2: int, a2: int, b2: int) -> bool:
     """
-    pre: 0 <= a1 <= 2 and 0 <= b1 <= 2 and 0 <= k2 <= 13 and 0 <= a2 <= 2 and 0 <= b2 <= 2
+    pre: 0 <= a1 <= 2 and 0 <= b1 <= 2 and 0 <= k2 <= 14 and 0 <= a2 <= 2 and 0 <= b2 <= 2
     post: _
     """
-    return untraced(_history, pickb(opb), [(9, pick(a1, 0, 2), pick(b1, 0, 2)), (pick(k2, 0, 13), pick(a2, 0, 2), pick(b2, 0, 2))])
+    return untraced(_history, pickb(opb), [(9, pick(a1, 0, 2), pick(b1, 0, 2)), (pick(k2, 0, 14), pick(a2, 0, 2), pick(b2, 0, 2))])
 
 
 def h_e_hist2_10(opb: bool, a1: int, b1: int, k2: int, a2: int, b2: int) -> bool:
     """
-    pre: 0 <= a1 <= 2 and 0 <= b1 <= 2 and 0 <= k2 <= 13 and 0 <= a2 <= 2 and 0 <= b2 <= 2
+    pre: 0 <= a1 <= 2 and 0 <= b1 <= 2 and 0 <= k2 <= 14 and 0 <= a2 <= 2 and 0 <= b2 <= 2
     post: _
     """
-    return untraced(_history, pickb(opb), [(10, pick(a1, 0, 2), pick(b1, 0, 2)), (pick(k2, 0, 13), pick(a2, 0, 2), pick(b2, 0, 2))])
+    return untraced(_history, pickb(opb), [(10, pick(a1, 0, 2), pick(b1, 0, 2)), (pick(k2, 0, 14), pick(a2, 0, 2), pick(b2, 0, 2))])
 
 
 def _h3(opb, k1, k2, k3, a, b):
@@ -229,106 +248,122 @@ def _h3(opb, k1, k2, k3, a, b):
 
 def h_e_hist3_0(opb: bool, k2: int, k3: int, a: int, b: int) -> bool:
     """
-    pre: 0 <= k2 <= 13 and 0 <= k3 <= 13 and 0 <= a <= 2 and 0 <= b <= 2
+    pre: 0 <= k2 <= 14 and 0 <= k3 <= 14 and 0 <= a <= 2 and 0 <= b <= 2
     post: _
     """
-    return untraced(_h3, pickb(opb), 0, pick(k2, 0, 13), pick(k3, 0, 13), pick(a, 0, 2), pick(b, 0, 2))
+    return untraced(_h3, pickb(opb), 0, pick(k2, 0, 14), pick(k3, 0, 14), pick(a, 0, 2), pick(b, 0, 2))
 
 
 def h_e_hist3_1(opb: bool, k2: int, k3: int, a: int, b: int) -> bool:
     """
-    pre: 0 <= k2 <= 13 and 0 <= k3 <= 13 and 0 <= a <= 2 and 0 <= b <= 2
+    pre: 0 <= k2 <= 14 and 0 <= k3 <= 14 and 0 <= a <= 2 and 0 <= b <= 2
     post: _
     """
-    return untraced(_h3, pickb(opb), 1, pick(k2, 0, 13), pick(k3, 0, 13), pick(a, 0, 2), pick(b, 0, 2))
+    return untraced(_h3, pickb(opb), 1, pick(k2, 0, 14), pick(k3, 0, 14), pick(a, 0, 2), pick(b, 0, 2))
 
 
 def h_e_hist3_2(opb: bool, k2: int, k3: int, a: int, b: int) -> bool:
     """
-    pre: 0 <= k2 <= 13 and 0 <= k3 <= 13 and 0 <= a <= 2 and 0 <= b <= 2
+    pre: 0 <= k2 <= 14 and 0 <= k3 <= 14 and 0 <= a <= 2 and 0 <= b <= 2
     post: _
     """
-    return untraced(_h3, pickb(opb), 2, pick(k2, 0, 13), pick(k3, 0, 13), pick(a, 0, 2), pick(b, 0, 2))
+    return untraced(_h3, pickb(opb), 2, pick(k2, 0, 14), pick(k3, 0, 14), pick(a, 0, 2), pick(b, 0, 2))
 
 
 def h_e_hist3_3(opb: bool, k2: int, k3: int, a: int, b: int) -> bool:
     """
-    pre: 0 <= k2 <= 13 and 0 <= k3 <= 13 and 0 <= a <= 2 and 0 <= b <= 2
+    pre: 0 <= k2 <= 14 and 0 <= k3 <= 14 and 0 <= a <= 2 and 0 <= b <= 2
     post: _
     """
-    return untraced(_h3, pickb(opb), 3, pick(k2, 0, 13), pick(k3, 0, 13), pick(a, 0, 2), pick(b, 0, 2))
+    return untraced(_h3, pickb(opb), 3, pick(k2, 0, 14), pick(k3, 0, 14), pick(a, 0, 2), pick(b, 0, 2))
 
 
 def h_e_hist3_4(opb: bool, k2: int, k3: int, a: int, b: int) -> bool:
     """
-    pre: 0 <= k2 <= 13 and 0 <= k3 <= 13 and 0 <= a <= 2 and 0 <= b <= 2
+    pre: 0 <= k2 <= 14 and 0 <= k3 <= 14 and 0 <= a <= 2 and 0 <= b <= 2
     post: _
     """
-    return untraced(_h3, pickb(opb), 4, pick(k2, 0, 13), pick(k3, 0, 13), pick(a, 0, 2), pick(b, 0, 2))
+    return untraced(_h3, pickb(opb), 4, pick(k2, 0, 14), pick(k3, 0, 14), pick(a, 0, 2), pick(b, 0, 2))
 
 
 def h_e_hist3_5(opb: bool, k2: int, k3: int, a: int, b: int) -> bool:
     """
-    pre: 0 <= k2 <= 13 and 0 <= k3 <= 13 and 0 <= a <= 2 and 0 <= b <= 2
+    pre: 0 <= k2 <= 14 and 0 <= k3 <= 14 and 0 <= a <= 2 and 0 <= b <= 2
     post: _
     """
-    return untraced(_h3, pickb(opb), 5, pick(k2, 0, 13), pick(k3, 0, 13), pick(a, 0, 2), pick(b, 0, 2))
+    return untraced(_h3, pickb(opb), 5, pick(k2, 0, 14), pick(k3, 0, 14), pick(a, 0, 2), pick(b, 0, 2))
 
 
 def h_e_hist3_6(opb: bool, k2: int, k3: int, a: int, b: int) -> bool:
     """
-    pre: 0 <= k2 <= 13 and 0 <= k3 <= 13 and 0 <= a <= 2 and 0 <= b <= 2
+    pre: 0 <= k2 <= 14 and 0 <= k3 <= 14 and 0 <= a <= 2 and 0 <= b <= 2
     post: _
     """
-    return untraced(_h3, pickb(opb), 6, pick(k2, 0, 13), pick(k3, 0, 13), pick(a, 0, 2), pick(b, 0, 2))
+    return untraced(_h3, pickb(opb), 6, pick(k2, 0, 14), pick(k3, 0, 14), pick(a, 0, 2), pick(b, 0, 2))
 
 
 def h_e_hist3_7(opb: bool, k2: int, k3: int, a: int, b: int) -> bool:
     """
-    pre: 0 <= k2 <= 13 and 0 <= k3 <= 13 and 0 <= a <= 2 and 0 <= b <= 2
+    pre: 0 <= k2 <= 14 and 0 <= k3 <= 14 and 0 <= a <= 2 and 0 <= b <= 2
     post: _
     """
-    return untraced(_h3, pickb(opb), 7, pick(k2, 0, 13), pick(k3, 0, 13), pick(a, 0, 2), pick(b, 0, 2))
+    return untraced(_h3, pickb(opb), 7, pick(k2, 0, 14), pick(k3, 0, 14), pick(a, 0, 2), pick(b, 0, 2))
 
 
 def h_e_hist3_8(opb: bool, k2: int, k3: int, a: int, b: int) -> bool:
     """
-    pre: 0 <= k2 <= 13 and 0 <= k3 <= 13 and 0 <= a <= 2 and 0 <= b <= 2
+    pre: 0 <= k2 <= 14 and 0 <= k3 <= 14 and 0 <= a <= 2 and 0 <= b <= 2
     post: _
     """
-    return untraced(_h3, pickb(opb), 8, pick(k2, 0, 13), pick(k3, 0, 13), pick(a, 0, 2), pick(b, 0, 2))
+    return untraced(_h3, pickb(opb), 8, pick(k2, 0, 14), pick(k3, 0, 14), pick(a, 0, 2), pick(b, 0, 2))
 
 
 def h_e_hist3_9(opb: bool, k2: int, k3: int, a: int, b: int) -> bool:
     """
-    pre: 0 <= k2 <= 13 and 0 <= k3 <= 13 and 0 <= a <= 2 and 0 <= b <= 2
+    pre: 0 <= k2 <= 14 and 0 <= k3 <= 14 and 0 <= a <= 2 and 0 <= b <= 2
     post: _
     """
-    return untraced(_h3, pickb(opb), 9, pick(k2, 0, 13), pick(k3, 0, 13), pick(a, 0, 2), pick(b, 0, 2))
+    return untraced(_h3, pickb(opb), 9, pick(k2, 0, 14), pick(k3, 0, 14), pick(a, 0, 2), pick(b, 0, 2))
 
 
 def h_e_hist3_10(opb: bool, k2: int, k3: int, a: int, b: int) -> bool:
     """
-    pre: 0 <= k2 <= 13 and 0 <= k3 <= 13 and 0 <= a <= 2 and 0 <= b <= 2
+    pre: 0 <= k2 <= 14 and 0 <= k3 <= 14 and 0 <= a <= 2 and 0 <= b <= 2
     post: _
     """
-    return untraced(_h3, pickb(opb), 10, pick(k2, 0, 13), pick(k3, 0, 13), pick(a, 0, 2), pick(b, 0, 2))
+    return untraced(_h3, pickb(opb), 10, pick(k2, 0, 14), pick(k3, 0, 14), pick(a, 0, 2), pick(b, 0, 2))
 
 
 def h_e_hist2_11(opb: bool, a1: int, b1: int, k2: int, a2: int, b2: int) -> bool:
     """
-    pre: 0 <= a1 <= 2 and 0 <= b1 <= 2 and 0 <= k2 <= 13 and 0 <= a2 <= 2 and 0 <= b2 <= 2
+    pre: 0 <= a1 <= 2 and 0 <= b1 <= 2 and 0 <= k2 <= 14 and 0 <= a2 <= 2 and 0 <= b2 <= 2
     post: _
     """
-    return untraced(_history, pickb(opb), [(11, pick(a1, 0, 2), pick(b1, 0, 2)), (pick(k2, 0, 13), pick(a2, 0, 2), pick(b2, 0, 2))])
+    return untraced(_history, pickb(opb), [(11, pick(a1, 0, 2), pick(b1, 0, 2)), (pick(k2, 0, 14), pick(a2, 0, 2), pick(b2, 0, 2))])
 
 
 def h_e_hist3_11(opb: bool, k2: int, k3: int, a: int, b: int) -> bool:
     """
-    pre: 0 <= k2 <= 13 and 0 <= k3 <= 13 and 0 <= a <= 2 and 0 <= b <= 2
+    pre: 0 <= k2 <= 14 and 0 <= k3 <= 14 and 0 <= a <= 2 and 0 <= b <= 2
     post: _
     """
-    return untraced(_h3, pickb(opb), 11, pick(k2, 0, 13), pick(k3, 0, 13), pick(a, 0, 2), pick(b, 0, 2))
+    return untraced(_h3, pickb(opb), 11, pick(k2, 0, 14), pick(k3, 0, 14), pick(a, 0, 2), pick(b, 0, 2))
+
+
+def h_e_hist2_14(opb: bool, a1: int, b1: int, k2: int, a2: int, b2: int) -> bool:
+    """
+    pre: 0 <= a1 <= 2 and 0 <= b1 <= 2 and 0 <= k2 <= 14 and 0 <= a2 <= 2 and 0 <= b2 <= 2
+    post: _
+    """
+    return untraced(_history, pickb(opb), [(14, pick(a1, 0, 2), pick(b1, 0, 2)), (pick(k2, 0, 14), pick(a2, 0, 2), pick(b2, 0, 2))])
+
+
+def h_e_hist3_14(opb: bool, k2: int, k3: int, a: int, b: int) -> bool:
+    """
+    pre: 0 <= k2 <= 14 and 0 <= k3 <= 14 and 0 <= a <= 2 and 0 <= b <= 2
+    post: _
+    """
+    return untraced(_h3, pickb(opb), 14, pick(k2, 0, 14), pick(k3, 0, 14), pick(a, 0, 2), pick(b, 0, 2))
 
 
 def _twice(kind, a, b, off, opb):
